@@ -64,6 +64,10 @@ func (r *EBSPReader) Read(n int) uint {
 	if r.err != nil {
 		return 0
 	}
+	if n < 0 || n > 64 {
+		r.err = fmt.Errorf("cannot read %d bits", n)
+		return 0
+	}
 	var err error
 	for r.n < n {
 		r.v <<= 8
